@@ -167,6 +167,13 @@ def run_groups(pid, groups, tier, seed):
     for r in results:
         u = r["unit"]
         if r.get("error"):
+            changed = code_changes(base.get(u, {}).get("code"), r.get("code", {}))
+            if changed:
+                # the engine failed on code that differs from the baseline: it could not interpret the change -- the
+                # unit leaves the supported subset (no verdict), it is not an error of the checker on this tree
+                demoted.append({"unit": u, "reason": "engine failure on changed code (%s): %s"
+                                % (", ".join(changed[:4]), r["error"].strip().splitlines()[-1][:200])})
+                continue
             errors.append("pyvc engine error in %s:\n%s" % (u, r["error"]))
             continue
         agg = aggregate(r["obligations"])
